@@ -1,6 +1,8 @@
-ENTRY = {'modules': ['VirtioVerif.Props.C07', 'VirtioVerif.Props.C04Ledger'],
+ENTRY = {'asan': True,
+ 'modules': ['VirtioVerif.Props.C07', 'VirtioVerif.Props.C04Ledger'],
  'assumptions': ['PARTIAL: memory safety proper (no out-of-bounds or use-after-free access inside the unsafe '
-                 'blocks) is not exhibited by the model; the model carries the logic (which indices index '
+                 'blocks; supported in the thorough tier by re-running the stream under AddressSanitizer, '
+                 'which is testing, not proof) is not exhibited by the model; the model carries the logic (which indices index '
                  'what, what is unshared, which slice bounds are handed out) with Rust panics as explicit '
                  'outcomes, and the executable behaviour is compared with the real code',
                  'the caller follows the contract of the unsafe fns (polls only tokens it holds, with their '
